@@ -439,6 +439,7 @@ pub fn corr_opts(ctx: &mut Ctx, directed: bool) {
     sha_key_types(ctx);
     placeholder_member(ctx);
     weight_types(ctx);
+    zero_weight_entries(ctx);
 
     // ---------- edge: weight <= 0 ---------------------------------------------------------------------
     ctx.begin_case("pmh3 weight 0 (hash_item asserts) / pmh3a weight 0 (skipped)");
@@ -472,6 +473,55 @@ pub fn corr_opts(ctx: &mut Ctx, directed: bool) {
     }
 }
 
+
+/// Maps that contain ZERO-weight entries (first, in the middle, last, several): the two-pass entry points accept them and must
+/// ignore them - same signature as the map without them, for IndexMap and HashMap, ProbMinHash3a and ProbMinHash3aSha; model included
+pub fn zero_weight_entries(ctx: &mut Ctx) {
+    for c in 0..ctx.n(16, 160) {
+        let mut rng = ctx.rng.fork();
+        let m = [2usize, 8, 64, 16][c as usize % 4];
+        let n = [2usize, 4, 12, 30][(c as usize / 4) % 4];
+        let ids = gen_ids(&mut rng, n + 3);
+        let mut items: Vec<(u64, f64)> = ids[..n].iter().enumerate().map(|(i, x)| (*x, 0.5 + (i % 6) as f64)).collect();
+        let clean = items.clone();
+        // zero entries at chosen ranks
+        let zpos: Vec<usize> = match c % 5 { 0 => vec![0], 1 => vec![n / 2], 2 => vec![n], 3 => vec![0, n / 2 + 1, n + 2], _ => vec![1, 2] };
+        for (j, zp) in zpos.iter().enumerate() { items.insert((*zp).min(items.len()), (ids[n + j], 0.0)); }
+        ctx.begin_case(&format!("pmh zero-weight entries m={} n={} zeros at {:?}", m, n, zpos));
+        ctx.mark_nontrivial();
+        ctx.count("maps with zero-weight entries");
+        let mk_i = |its: &[(u64, f64)]| { let mut mp: IndexMap<u64, f64> = IndexMap::new(); for (x, w) in its { mp.insert(*x, *w); } mp };
+        let mk_h = |its: &[(u64, f64)]| { let mut mp: HashMap<u64, f64> = HashMap::new(); for (x, w) in its { mp.insert(*x, *w); } mp };
+        let (iz, ic, hz) = (mk_i(&items), mk_i(&clean), mk_h(&items));
+        let r3a_z: Res = catch(std::panic::AssertUnwindSafe(|| { let mut h = ProbMinHash3a::<u64, FnvHasher>::new(m, INIT); h.hash_weigthed_idxmap(&iz); (h.get_signature().clone(), h.verif_registers()) }));
+        let r3a_c: Res = catch(std::panic::AssertUnwindSafe(|| { let mut h = ProbMinHash3a::<u64, FnvHasher>::new(m, INIT); h.hash_weigthed_idxmap(&ic); (h.get_signature().clone(), h.verif_registers()) }));
+        let r3a_h: Res = catch(std::panic::AssertUnwindSafe(|| { let mut h = ProbMinHash3a::<u64, FnvHasher>::new(m, INIT); h.hash_weigthed_hashmap(&hz); (h.get_signature().clone(), h.verif_registers()) }));
+        let rs_z: Res = catch(std::panic::AssertUnwindSafe(|| { let mut h = ProbMinHash3aSha::<u64>::new(m, INIT); h.hash_weigthed_idxmap(&iz); (h.get_signature().clone(), h.verif_registers()) }));
+        let rs_c: Res = catch(std::panic::AssertUnwindSafe(|| { let mut h = ProbMinHash3aSha::<u64>::new(m, INIT); h.hash_weigthed_idxmap(&ic); (h.get_signature().clone(), h.verif_registers()) }));
+        let rs_h: Res = catch(std::panic::AssertUnwindSafe(|| { let mut h = ProbMinHash3aSha::<u64>::new(m, INIT); h.hash_weigthed_hashmap(&hz); (h.get_signature().clone(), h.verif_registers()) }));
+        ctx.op(&format!("pmh3 new a {} {}", m, INIT));
+        ctx.op(&format!("pmh3 batch a {}", items.iter().map(|(id, w)| tok_fnv(*id, *w)).collect::<Vec<_>>().join(" ")));
+        emit(ctx, "pmh3", "a", &r3a_z);
+        ctx.op(&format!("pmh3 new s {} {}", m, INIT));
+        ctx.op(&format!("pmh3 batch s {}", items.iter().map(|(id, w)| tok_sha(*id, *w)).collect::<Vec<_>>().join(" ")));
+        emit(ctx, "pmh3", "s", &rs_z);
+        let eq = |x: &Res, y: &Res| match (x, y) { (Ok(p), Ok(q)) => p.0 == q.0 && p.1.iter().map(|v| v.to_bits()).eq(q.1.iter().map(|v| v.to_bits())), _ => false };
+        for (name, a, b) in [("ProbMinHash3a IndexMap: with vs without zero entries", &r3a_z, &r3a_c), ("ProbMinHash3a: IndexMap vs HashMap with zero entries", &r3a_z, &r3a_h),
+                             ("ProbMinHash3aSha IndexMap: with vs without zero entries", &rs_z, &rs_c), ("ProbMinHash3aSha: IndexMap vs HashMap with zero entries", &rs_z, &rs_h)] {
+            if !eq(a, b) {
+                ctx.oracle_failure(serde_json::json!({"kind":"impl_violates_property","what":"zero-weight entries of a map change the signature / entry points disagree","which":name,"m":m,"zeros_at":zpos,
+                    "items": items.iter().map(|(i,w)| format!("{}:{}",i,w)).collect::<Vec<_>>()}));
+            }
+        }
+        // no position may hold a zero-weight object
+        let zero_ids: Vec<u64> = items.iter().filter(|(_, w)| *w == 0.0).map(|(i, _)| *i).collect();
+        for (name, r) in [("ProbMinHash3a", &r3a_z), ("ProbMinHash3aSha", &rs_z), ("ProbMinHash3a HashMap", &r3a_h), ("ProbMinHash3aSha HashMap", &rs_h)] {
+            if let Ok((sig, _)) = r { if sig.iter().any(|d| zero_ids.contains(d)) {
+                ctx.oracle_failure(serde_json::json!({"kind":"impl_violates_property","what":"a signature position holds an object of weight 0","variant":name,"m":m,"zeros_at":zpos}));
+            } }
+        }
+    }
+}
 
 /// The weight TYPE of the generic entry points (`hash_item<F>`, `hash_weigthed_idxmap<_, F>`, `hash_weigthed_hashmap<_, F>`): f32, u32, u64
 /// and usize weights must give the signature of the same set with the weights converted to f64 (what the model receives)
